@@ -541,3 +541,22 @@ package node
 //@   ensures result1 == nil ==> result0 != nil && in(conf.Name, nsm.kvNodes) && nsm.kvNodes[conf.Name] == result0 && result0.conf == conf
 //@   ensures result1 == nil ==> conf.PartitionNum > 0
 //@   modifies *
+
+// abort after a failed command: the store's shared write batch is emptied on EVERY path - also when nothing was
+// batched (a non-batched command that failed half way has buffered writes too) - and a pending batch is dissolved
+//@ property C11
+//@ noeffect (*github.com/youzan/ZanRedisDB/pkg/wait.wait).Trigger (github.com/youzan/ZanRedisDB/pkg/wait.Wait).Trigger github.com/youzan/ZanRedisDB/slow.LogSlowDBWrite github.com/youzan/ZanRedisDB/slow.NewSlowLogInfo
+//@ func (bo *kvbatchOperator) SetBatched(b bool)
+//@   requires bo != nil
+//@   ensures bo.batching == b
+//@   modifies bo.batching, bo.batchStart
+//@ func (s *KVStore) AbortBatch()
+//@   requires s != nil && s.opts != nil && s.RockDB != nil && s.RockDB.wb != nil
+//@   ensures s.opts.EngType == rockredis.EngType ==> ghost(wbputs, s.RockDB.wb) == 0 && ghost(wbdels, s.RockDB.wb) == 0
+//@   modifies ghost(wbputs, s.RockDB.wb), ghost(wbdels, s.RockDB.wb), ghost(wbver, s.RockDB.wb), s.RockDB.isBatching
+//@ func (bo *kvbatchOperator) AbortBatchForError(err error)
+//@   opt autoloops
+//@   requires bo != nil && bo.kvsm != nil && bo.kvsm.store != nil && bo.kvsm.store.opts != nil && bo.kvsm.store.opts.EngType == rockredis.EngType && bo.kvsm.store.RockDB != nil && bo.kvsm.store.RockDB.wb != nil && bo.kvsm.w != nil
+//@   ensures ghost(wbputs, bo.kvsm.store.RockDB.wb) == 0 && ghost(wbdels, bo.kvsm.store.RockDB.wb) == 0
+//@   ensures !bo.batching && (old(bo.batching) ==> len(bo.batchReqIDList) == 0 && len(bo.batchReqRspList) == 0)
+//@   modifies *
